@@ -128,7 +128,10 @@ def adversarial_messages():
 
 
 ATOMS18 = ['wl_*', '*', '*_x', 'wl_surface', '5', '5a', '7B', '0', '-1', '1.5', 'nil', '"s"', '""', 'new', 'destroyed', 'x', 'A', 'B', 'unknown', 'pointer', 'key*', 'title', 'st*',
-           '1e999', 'inf', '99999999999999999999', '3é', 'é', '@5', '#5b', 'wl_a@5', '!', '']
+           '1e999', 'inf', '99999999999999999999', '3é', 'é', '@5', '#5b', 'wl_a@5', '!', '',
+           # strings as people paste them: paths, regex-looking text, escapes (complete and cut short), format directives
+           '"dir\\"', '"C:\\Users\\me"', '"\\x"', '"\\x1b[0m"', '"\\u12"', '"\\u2026"', '"\\N{bogus}"', '"\\"', '"a\\nb"', '"\\d+\\.\\d+"', '"%s"', '"{0}"', '"{"', '"\\U0001"',
+           '"\\777"', '"\\"x"']
 
 
 def gen_structured_matcher(d):
@@ -288,6 +291,7 @@ BYTE_TOKENS = [b'\xff', b'\xfe\xff', b'\x00', b'\r', b'\r\n', b'\xc3', b'\xe2\x8
 class Bytes(Stage):
     """byte strings to main.py -l / -p / -r (real subprocesses)"""
     name = 'bytes'
+    wrong_file = False
 
     def examples(self, tier):
         return 36 if tier == 'quick' else 14 * 150
@@ -295,10 +299,26 @@ class Bytes(Stage):
     def gen(self, d, tier):
         specs = histgen.history(d, nconn=d.int(1, 2), nmsg=d.int(1, 8), profile=PROFILE)
         data = ('\n'.join(wire.render(m, d.choice(['new', 'old'])) for m in specs) + '\n').encode()
-        k = d.int(0, 5)
+        k = 6 if self.wrong_file else d.int(0, 6)
         b = bytearray(data)
         if k == 5:
             b = bytearray(d.draw(__import__('hypothesis').strategies.binary(min_size=0, max_size=200)))
+        elif k == 6:
+            # the wrong file: a compressed / re-encoded log (whole, cut short, or only the magic number followed by other bytes)
+            import gzip, bz2, lzma, zlib
+            enc = d.choice(['gzip', 'gzip', 'gzip', 'gzip', 'bz2', 'xz', 'zlib', 'utf-16', 'utf-16-be', 'utf-32', 'zip-magic', 'zstd-magic'])
+            if enc == 'gzip': z = gzip.compress(data, mtime=0)
+            elif enc == 'bz2': z = bz2.compress(data)
+            elif enc == 'xz': z = lzma.compress(data)
+            elif enc == 'zlib': z = zlib.compress(data)
+            elif enc == 'zip-magic': z = b'PK\x03\x04' + data
+            elif enc == 'zstd-magic': z = b'\x28\xb5\x2f\xfd' + data
+            else: z = data.decode('utf-8', 'replace').encode(enc)
+            how = d.int(0, 3)
+            if how == 0: b = bytearray(z)
+            elif how == 1: b = bytearray(z[:d.int(0, len(z))])
+            elif how == 2: b = bytearray(z[:d.int(2, 12)] + data[:d.int(0, len(data))])
+            else: b = bytearray(z[:d.int(2, 12)] + bytes(d.int(0, 255) for _ in range(d.int(0, 40))))
         else:
             for _ in range(d.int(1, 6)):
                 i = d.int(0, len(b))
@@ -309,7 +329,7 @@ class Bytes(Stage):
                 else: b[i:i] = bytes([d.int(128, 255)])
         # the sandbox only has C locales, where Python decodes standard input with surrogateescape; under an ordinary UTF-8 locale
         # (en_US.UTF-8 ...) standard streams decode strictly - PYTHONIOENCODING reproduces exactly that
-        return dict(data=list(bytes(b)), exit=d.choice([0, 3]), mode=d.choice(['file', 'pipe', 'pipe', 'run']), stdio=d.choice([None, 'utf-8:strict', 'utf-8:strict']),
+        return dict(data=list(bytes(b)), exit=d.choice([0, 3]), mode=d.choice(['file', 'file', 'file', 'pipe', 'run'] if self.wrong_file else ['file', 'pipe', 'pipe', 'run']), stdio=d.choice([None, 'utf-8:strict', 'utf-8:strict']),
                     no_stdin=d.chance(0.35),      # nobody at the prompt: standard input at end of file
                     linger=d.choice([0, 0, 0, 0, 1.3]))      # (run mode) the program closes its stderr and only exits later
 
@@ -370,6 +390,16 @@ class Bytes(Stage):
 
 # ------------------------------------------------------------------------------------------------
 # coverage-guided stage (atheris, thorough tier): byte strings -> the same oracles
+
+
+class WrongFile(Bytes):
+    """the wrong kind of file: compressed / UTF-16 / archive bytes (whole, cut short, magic number + anything) to -l, -p and -r"""
+    name = 'wrong-file'
+    wrong_file = True
+
+    def examples(self, tier):
+        return 40 if tier == 'quick' else 14 * 100
+
 
 def fuzz_target(target, data):
     """one execution of a fuzz target; never raises for findings (returns them)"""
@@ -489,7 +519,7 @@ class C18(Prop):
     assumptions = ['a slow input is inconclusive, never a violation', 'LC_ALL=C.UTF-8',
                    'internal errors that the line loop catches, prints and survives are counted (counters internal-error-printed-and-survived:*) but are '
                    'not violations of the statement (the input is consumed to the end and every connection is closed)']
-    stages = [Lines(), Matchers(), Commands(), Bytes(), Fuzz()]
+    stages = [Lines(), Matchers(), Commands(), Bytes(), WrongFile(), Fuzz()]
 
 
 PROP = C18()
